@@ -459,7 +459,12 @@ class Tensor:
         nidx, adv = Tensor._norm_index(idx)
         if adv:
             _log("setitem(advanced)")
-        self._a[nidx] = self._value_for_store(value)
+        if not self._a.flags.writeable:
+            raise UnsupportedOp("in-place write through a conj()/real/imag/expand view")
+        try:
+            self._a[nidx] = self._value_for_store(value)
+        except ValueError as e:
+            raise RuntimeError(f"shape mismatch in index assignment: {e}")
 
     def _value_for_store(self, value):
         """value (tensor / scalar) converted to this tensor's storage, torch copy-cast semantics"""
@@ -1001,7 +1006,7 @@ class Tensor:
     def diag(self, diagonal=0):
         _log("diag")
         if self._a.ndim == 1:
-            n = self._a.shape[0] + abs(diagonal)
+            n = self._a.shape[0] + builtins.abs(diagonal)
             out = zeros(n, n, dtype=self.dtype, device=self.device)
             for i in range(self._a.shape[0]):
                 out._a[(i, i + diagonal) if diagonal >= 0 else (i - diagonal, i)] = self._a[i]
@@ -1017,6 +1022,9 @@ class Tensor:
         a = _to_obj(self._a)
         dt = out_dtype or (self.dtype if self.dtype.cat >= 2 else _default_dtype)
         return Tensor._mk(_nd(np.frompyfunc(f, 1, 1)(a), object), dt, self.device)
+
+    def __abs__(self):
+        return self.abs()
 
     def abs(self):
         if self.dtype.cat < 2:
@@ -1229,7 +1237,10 @@ def tensor(data, *, dtype=None, device=None, requires_grad=False):
                 else:
                     flat.append(Poly.coerce(x))
             walk(nested)
-            a.reshape(-1)[:] = np.array(flat + [None], dtype=object)[:-1] if flat else a.reshape(-1)
+            fl = a.reshape(-1)
+            assert fl.size == len(flat) and (fl.size == 0 or np.shares_memory(fl, a))
+            for i, p in enumerate(flat):
+                fl[i] = p
     else:
         a = np.array(nested, dtype=_np_storage(src_dt)).reshape(shape)
     dt = dtype or src_dt
